@@ -30,8 +30,9 @@ def image_record(draw, small_pool=False):
     unified = draw(st.sampled_from([False, False, True]))
     rec = {
         "path": draw(gen.rel_path),
-        "mtime": draw(st.one_of(st.integers(0, 2 ** 31), st.integers(-5, 2 ** 40))),
-        "size": draw(st.one_of(st.integers(1, 10 ** 6), st.integers(2 ** 32, 2 ** 45), st.just(2 ** 32), st.just(2 ** 31))),
+        "mtime": draw(st.one_of(st.integers(0, 2 ** 31), st.integers(-5, 2 ** 40), st.sampled_from([2 ** 53 + 1, 2 ** 63 - 1]))),
+        "size": draw(st.one_of(st.integers(1, 10 ** 6), st.integers(2 ** 32, 2 ** 45), st.just(2 ** 32), st.just(2 ** 31),
+                               st.sampled_from([2 ** 53 + 1, 2 ** 63 - 1, 2 ** 64 - 1, 2 ** 64 + 1, 10 ** 20 + 7]), st.integers(2 ** 53, 2 ** 70))),
         "volume_id": draw(st.one_of(st.none(), gen.name_text)),
         "type": draw(st.sampled_from(["dvd", "boot", "qcow2"]) if small_pool else st.sampled_from(IMAGE_TYPES)),
         "format": draw(st.sampled_from(["iso", "qcow2"]) if small_pool else st.sampled_from(IMAGE_FORMATS)),
